@@ -575,6 +575,8 @@ CUT_BITS = {"force_progress": 1, "zero_length_history": 2}
 
 
 def match_known(known, prop, v):
+    if v.get("kind") == "impure":
+        return None          # a purity violation is decided on the real code alone; no finding excuses it
     for k in known:
         if k["property"] != prop:
             continue
